@@ -747,12 +747,7 @@ func (c *Check) racePlan(batch string, run int, seed uint64, docs []gen.GenDoc, 
 			case k < 9:
 				ops = append(ops, plan.Op{Op: "File", Doc: id, Opt: opt})
 			default:
-				if sharedOpts {
-					// ApplyForURL with caller-shared Options is C10's matter (it writes them today); keep C12 about Apply-family sharing
-					ops = append(ops, plan.Op{Op: "Apply", Tree: tree, Opt: opt})
-				} else {
-					ops = append(ops, plan.Op{Op: "URL", Doc: id, Opt: opt, URL: fmt.Sprintf("http://example.com/t%d/page/%d", t, i+2), Net: &plan.NetPlan{Status: 200, CType: &ct, StallAt: -1}})
-				}
+				ops = append(ops, plan.Op{Op: "URL", Doc: id, Opt: opt, URL: fmt.Sprintf("http://example.com/t%d/page/%d", t, i+2), Net: &plan.NetPlan{Status: 200, CType: &ct, StallAt: -1}})
 			}
 		}
 		p.Tasks = append(p.Tasks, ops)
